@@ -28,6 +28,8 @@ type Case struct {
 	// Late: the preamble is supplied only after the File has been rendered once; the second
 	// render is what is checked.
 	Late bool `json:"late,omitempty"`
+	// NoFormat: the structure is checked on the unformatted output itself.
+	NoFormat bool `json:"noformat,omitempty"`
 }
 
 func (c Case) scenario(noFormat bool) imps.Scenario {
@@ -192,12 +194,12 @@ func renderLate(c Case, noFormat bool) ([]byte, error) {
 }
 
 func check(c Case) error {
-	sc := c.scenario(false)
+	sc := c.scenario(c.NoFormat)
 	var o *imps.Outcome
 	var err error
 	if c.Late {
 		o = &imps.Outcome{Model: imps.ModelOf(&sc.File), Markers: sc.Markers()}
-		src, rerr := renderLate(c, false)
+		src, rerr := renderLate(c, c.NoFormat)
 		if rerr != nil {
 			o.RenderErr = rerr
 		} else {
@@ -369,6 +371,7 @@ func TestC19(t *testing.T) {
 			c.Preamble = append(c.Preamble, genBlock(rt))
 		}
 		c.Late = rapid.IntRange(0, 3).Draw(rt, "late") == 0
+		c.NoFormat = rapid.IntRange(0, 3).Draw(rt, "noformat") == 0
 		r.Class("random_text")
 		r.NonTrivial(fmt.Sprintf("%+v", c))
 		return c
